@@ -57,9 +57,13 @@ def scenarios(tier, rng):
     for i in range(n):
         s = Scenario("p%d" % i, {"prior": True, "want": []})
         r = rng.random()
-        if r < 0.4:
+        if r < 0.35:
             s.add("NEW", 0, "ini")
-        elif r < 0.7:
+        elif r < 0.55:
+            # a file that begins with a section: the group-less keys set afterwards are the first ones without a group
+            s.file(b"/in.conf", rng.choice([b"[S]\nk2=\"\"\nk3=0\n\n[Sx]\nk1=no\n", b"[Sx]\nk0=1\n", b"# head\n\n[S]\nk4\n"]))
+            s.add("RF", 0, h(b"/in.conf"), h(b"="), h(b"#"))
+        elif r < 0.75:
             s.file(b"/in.conf", b"k0=\nk1=no\n[S]\nk2=\"\"\nk3=0\nk4\n")
             s.add("RF", 0, h(b"/in.conf"), h(b"="), h(b"#"))
         else:
@@ -67,9 +71,12 @@ def scenarios(tier, rng):
             # and not the next line of the value before it), next to keys which then get typed values
             s.file(b"/in.conf", b"k0=no\n\nk1\n\nk2=3\n\nk3\n[S]\nk4=0\n\nk5\n\nk0=1\n")
             s.add("RF", 0, h(b"/in.conf"), h(b"="), h(b"#"))
+        # two section names of which one begins with the other; in a third of the sequences two names that a multiplicative
+        # string hash does not tell apart ('A'*33+'b' == 'B'*33+'A'), with few keys, so that both sections get the same key
+        twins = rng.random() < 0.33
         for j in range(6):
-            g = rng.choice([None, b"S", b"Sx", b"S"])     # two section names of which one begins with the other
-            k = b"k%d" % rng.randrange(6)
+            g = rng.choice([b"Ab", b"BA", b"Ab", b"BA", None] if twins else [None, b"S", b"Sx", b"S"])
+            k = b"k%d" % rng.randrange(2 if twins else 6)
             if rng.random() < 0.7:
                 s.add("SET", 0, "str", h(g), h(k), h(rng.choice(PRIOR)))
             ty = rng.choice(["bool", "bool", "int", "uint64"])
